@@ -196,3 +196,30 @@ func init() {
 			L(words...))
 	})
 }
+
+func init() {
+	// ((relpath text) ...) -> the service summary of `coca evaluate` (lifecycle map, return-type map, related
+	// parameters), maps listed by key; observed by C08 only (no Coq model of this part)
+	register("C18.svc", func(in Sx) Sx {
+		dir := writeTree(in)
+		defer os.RemoveAll(dir)
+		identApp := javaapp.NewJavaIdentifierApp()
+		idents := identApp.AnalysisPath(dir)
+		fullApp := javaapp.NewJavaFullApp()
+		deps := fullApp.AnalysisPath(dir, idents)
+		res := evaluate.NewEvaluateAnalyser().Analysis(deps, idents)
+		mapSx := func(m map[string][]string) Sx {
+			keys := make([]string, 0, len(m))
+			for k := range m {
+				keys = append(keys, k)
+			}
+			sort.Strings(keys)
+			out := []Sx{}
+			for _, k := range keys {
+				out = append(out, L(A(k), Strs(m[k])))
+			}
+			return L(out...)
+		}
+		return L(mapSx(res.ServiceSummary.LifecycleMap), mapSx(res.ServiceSummary.ReturnTypeMap), Strs(res.ServiceSummary.RelatedMethod))
+	})
+}
